@@ -175,6 +175,10 @@ type Case struct {
 	// addressing the packets of the conversations; the frame lands in the file of the packet behind it and takes
 	// an index of its own there).  Only with link "eth".
 	Noise string `json:"noise,omitempty"`
+	// Unsorted: "rev:<file>" - the packets of that capture file are written in the reverse of their time order
+	// (a file merged from several capture points, a clock that stepped back); what the endpoints exchanged and
+	// when is unchanged, only the positions inside the file are
+	Unsorted string `json:"unsorted,omitempty"`
 }
 
 func (c Case) Key() string {
@@ -188,6 +192,9 @@ func (c Case) Key() string {
 	}
 	if c.Noise != "" {
 		k += " noise=" + c.Noise
+	}
+	if c.Unsorted != "" {
+		k += " unsorted=" + c.Unsorted
 	}
 	return k
 }
@@ -910,6 +917,24 @@ func Build(c Case) (*Capture, error) {
 			return nil, fmt.Errorf("assign %q leaves a file empty", c.Assign)
 		}
 	}
+	if c.Unsorted != "" {
+		kind, fs, _ := strings.Cut(c.Unsorted, ":")
+		f, err := strconv.Atoi(fs)
+		if err != nil || kind != "rev" || f < 0 || f >= len(cp.Files) {
+			return nil, fmt.Errorf("bad unsorted %q", c.Unsorted)
+		}
+		n := 0
+		for _, p := range all {
+			if p.File == f {
+				n++
+			}
+		}
+		for _, p := range all {
+			if p.File == f {
+				p.Index = n - 1 - p.Index
+			}
+		}
+	}
 	// ground truth
 	crossSwap := map[int]bool{}
 	{
@@ -1262,7 +1287,23 @@ func (c *Capture) WriteFiles(dir string) error {
 		}
 		return first
 	}
-	for i, p := range c.Packets {
+	// a file is written in the order of the indexes of its packets (the capture order, unless the case asks for a
+	// file that is not sorted by time)
+	order := make([]int, len(c.Packets))
+	for i := range order {
+		order[i] = i
+	}
+	if c.Case.Unsorted != "" {
+		sort.SliceStable(order, func(a, b int) bool {
+			pa, pb := c.Packets[order[a]], c.Packets[order[b]]
+			if pa.File != pb.File {
+				return pa.File < pb.File
+			}
+			return pa.Index < pb.Index
+		})
+	}
+	for _, i := range order {
+		p := c.Packets[i]
 		w := writers[p.File]
 		if w == nil {
 			f, err := os.Create(filepath.Join(dir, c.Files[p.File]))
